@@ -22,8 +22,8 @@ pub fn check_decode(ctx: &Ctx, sweep: &str, i: u64, shape: &str, text: &[u8], vi
         else if let Class::Accept(_) = class { ctx.violation(format!("{P}:decode:{shape}:rejected"), format!("well-formed hex refused: {}", r.describe()), replay) } }
 }
 pub fn run(ctx: &Ctx) {
-    let maxlen = 4096u64;
-    ctx.sweep("encode-decode-roundtrip", "every length 0..=4096 of a buffer cycling through all byte values, and every single byte: encode, check the text, decode it back", maxlen + 1 + 256, |i| {
+    let maxlen = if ctx.quick() { 4096u64 } else { 20_000 };
+    ctx.sweep("encode-decode-roundtrip", "every length 0..=4096 (thorough: 0..=20000) of a buffer cycling through all byte values, and every single byte: encode, check the text, decode it back", maxlen + 1 + 256, |i| {
         let data = if i <= maxlen { buffer(i as usize) } else { vec![(i - maxlen - 1) as u8] };
         let via_file = i % 2 == 1;
         let (cmd, file) = if via_file { let f = scratch_file("encode-decode-roundtrip", i, "bin", &data); (Cmd::new(&["hex", "encode", &f]), Some(f)) } else { (Cmd::new(&["hex", "encode"]).stdin(&data), None) };
